@@ -74,12 +74,14 @@ class SimContext:
             "fault_kinds": (),  # subset of ("death", "exc")
             "fault_rate": (0, 1),  # (num, den) per task
             "max_faults": 1,
+            "inner_excs": ("oserror", "memory"),
             "stall": True,
         }
         self.pool_faults_fired = 0
         self.interleavings = []  # per pool: (assignment, completion order)
         self.notes = []
         self.worker_init = []  # callables run in every freshly forked worker
+        self.armed_inner = None  # (in a worker) in-task fault waiting for a seam
 
     # -- logging (never draws from the tape, never reads a clock) -----------
     def event(self, kind, *data):
